@@ -229,7 +229,8 @@ void argument_storage(const std::string & pid, const std::string & tn, int which
           bigv.setConstant(S(977));
           bigv.template segment<A_>(1) = v;
           const Eigen::Matrix<S, 1, A_> rv = v.transpose();
-          MC_AS("action g*v", (g * v).eval(), chk_((g * (v * S(1))).eval()); chk_((g * bigv.template segment<A_>(1)).eval()); chk_((g * rv.transpose()).eval()));
+          const Eigen::Matrix<S, Eigen::Dynamic, 1> vdyn = v;  // dynamically sized arguments
+          MC_AS("action g*v", (g * v).eval(), chk_((g * (v * S(1))).eval()); chk_((g * bigv.template segment<A_>(1)).eval()); chk_((g * rv.transpose()).eval()); chk_((g * vdyn).eval()); chk_((g * bigv.segment(1, A_)).eval()));
           (void)rv;
         }
       }
